@@ -1,0 +1,19 @@
+//go:build !verif
+
+package app
+
+import (
+	"time"
+
+	"github.com/f1bonacc1/process-compose/src/command"
+)
+
+// No-op twins of the verification hooks (see verif_hooks_on.go, build tag `verif`).
+
+func verifCommander(_ *Process) command.Commander { return nil }
+
+func verifState(_ *Process, _ string) {}
+
+func verifTimeUnit() time.Duration { return 0 }
+
+func verifYield(_, _ string) {}
